@@ -60,7 +60,7 @@ func apiVersion() int32 {
 	return int32(v)
 }
 
-var badReplies = []string{"exception", "garbage", "empty_frame", "exit_after_read", "exit_before_read", "oversize", "wrong_type"}
+var badReplies = []string{"exception", "garbage", "empty_frame", "exit_after_read", "exit_before_read", "oversize", "oversize_neg", "raw_garbage", "wrong_type"}
 var benign = []string{"onebyte", "split_header"}
 
 // expectOf interprets a script the way the protocol description does.
@@ -268,7 +268,7 @@ func c16(r *core.Run) {
 
 	r.Set("single_plugin_scripts_enumerated", int64(nSingle))
 	r.Set("exhaustive", r.Tier == "thorough")
-	r.Set("exhaustive_subspace", "single plugin: {conforming, feature missing, wrong name, wrong version, non-zero exit} + protocol step in {handshake, generate, goodbye} x fault in {exception envelope, garbage, empty frame, wrong message type, exit before read, exit after read, oversize length prefix, 1-byte writes, split header, truncation at every byte offset of the reply frame (every 3rd offset in the quick tier)}")
+	r.Set("exhaustive_subspace", "single plugin: {conforming, feature missing, wrong name, wrong version, non-zero exit} + protocol step in {handshake, generate, goodbye} x fault in {exception envelope, garbage, empty frame, wrong message type, exit before read, exit after read, oversize length prefix (0x7fffffff and 0xffffffff), unframed garbage, 1-byte writes, split header, truncation at every byte offset of the reply frame (every 3rd offset in the quick tier)}")
 	if !r.Replay {
 		r.Require("runs", 100)
 		r.Require("strace_runs", 10)
